@@ -41,6 +41,9 @@ def run(P, R, tier):
     d2c = P.func('spatialpandas.utils', '_data2coord')
     gs = P.func('spatialpandas.geoseries', 'GeoSeries.hilbert_distance')
 
+    # the value range [0, 4^p): 2*p bits survive every cast between the curve kernel and the public result
+    from rules import C09 as _C09
+    _C09.narrow_casts(P, R, 'C08.f')
     # ---------------------------------------------------------------- C08.a
     tree = [f for f in P.reachable([hd], follow_nested=False) if f.mod.name in ('spatialpandas.geometry.base', 'spatialpandas.spatialindex.rtree', 'spatialpandas.utils',
                                                                                    'spatialpandas.spatialindex.hilbert_curve')]
